@@ -144,8 +144,8 @@ func runScenario(t *testing.T, sc *Scenario, tr *vh.Tracer) {
 			if op.Op == "exists" || op.Op == "resolve" {
 				method = http.MethodHead
 			}
-			if op.Op == "fetchref" || op.Op == "resolve" {
-				route = "manifest"
+			if op.Op == "fetchref" || op.Op == "resolve" || op.Op == "pred" || op.Op == "referrers" {
+				route = "manifest" // (pred / referrers without the Referrers API: the GET of the referrers-tag index)
 			}
 			reg.Arm(&regfake.Corruption{Method: method, Route: route, Field: op.Corrupt, Nth: 1})
 		}
@@ -342,7 +342,11 @@ func genScenario(rng *rand.Rand, id int) Scenario {
 	for i, steps := 0, 8+rng.Intn(10); i < steps; i++ {
 		x := rng.Intn(100)
 		if crafted && rng.Intn(2) == 0 {
-			sc.Ops = append(sc.Ops, Op{Op: "referrers", N: 2, Ref: []string{"", "application/vnd.verif.sig", "application/vnd.verif.sbom+json"}[rng.Intn(3)]})
+			o := Op{Op: "referrers", N: 2, Ref: []string{"", "application/vnd.verif.sig", "application/vnd.verif.sbom+json"}[rng.Intn(3)]}
+			if !sc.Profile.Referrers && sc.Profile.DigestHdr && rng.Intn(3) == 0 {
+				o.Corrupt = []string{"digest", "body"}[rng.Intn(2)]
+			}
+			sc.Ops = append(sc.Ops, o)
 			continue
 		}
 		switch {
@@ -391,10 +395,19 @@ func genScenario(rng *rand.Rand, id int) Scenario {
 		case x < 84 && len(blobs) > 0:
 			sc.Ops = append(sc.Ops, Op{Op: "mount", N: blobs[rng.Intn(len(blobs))]})
 		case x < 87:
-			sc.Ops = append(sc.Ops, Op{Op: "pred", N: node()})
+			o := Op{Op: "pred", N: node()}
+			// the referrers-tag index comes back with a digest header that contradicts it, or with flipped bytes
+			if !sc.Profile.Referrers && sc.Profile.DigestHdr && rng.Intn(3) == 0 {
+				o.Corrupt = []string{"digest", "body"}[rng.Intn(2)]
+			}
+			sc.Ops = append(sc.Ops, o)
 		case x < 90:
-			sc.Ops = append(sc.Ops, Op{Op: "referrers", N: node(), Ref: []string{"", "application/vnd.verif.sig", "application/vnd.verif.sbom+json",
-				"application/vnd.verif.art", vh.MTLayer}[rng.Intn(5)]})
+			o := Op{Op: "referrers", N: node(), Ref: []string{"", "application/vnd.verif.sig", "application/vnd.verif.sbom+json",
+				"application/vnd.verif.art", vh.MTLayer}[rng.Intn(5)]}
+			if !sc.Profile.Referrers && sc.Profile.DigestHdr && rng.Intn(3) == 0 {
+				o.Corrupt = []string{"digest", "body"}[rng.Intn(2)]
+			}
+			sc.Ops = append(sc.Ops, o)
 		case x < 94:
 			sc.Ops = append(sc.Ops, Op{Op: "tags"})
 		case len(blobs) > 0:
